@@ -27,6 +27,17 @@ type C13Case struct {
 	Share     bool `json:"share,omitempty"`
 	ShareFrom int  `json:"sharefrom,omitempty"`
 	ShareInto int  `json:"shareinto,omitempty"`
+	// Typed: additionally a source of a typed container flavour ([]Object, []List, map[string]Object,
+	// map[string]List) is converted; its entries are containers or nil interface values
+	Typed *TypedSrc `json:"typed,omitempty"`
+}
+
+type TypedSrc struct {
+	Lists   bool     `json:"lists,omitempty"` // element type List (else Object)
+	Map     bool     `json:"map,omitempty"`   // map[string]T (else []T)
+	Nested  bool     `json:"nested,omitempty"` // the typed value sits inside a []any / map[string]any
+	Entries []V      `json:"entries"`          // KNil, or a container of the element type
+	Keys    []string `json:"keys,omitempty"`
 }
 
 func GenC13(t *rapid.T) *C13Case {
@@ -55,6 +66,23 @@ func GenC13(t *rapid.T) *C13Case {
 	c := &C13Case{Tree: tree, Flavour: drawInt(t, 0, 255, "flavour")}
 	if oneIn(t, 6, "share") {
 		c.Share, c.ShareFrom, c.ShareInto = true, genRaw(t), genRaw(t)
+	}
+	if oneIn(t, 6, "typedsrc") {
+		ts := &TypedSrc{Lists: drawBool(t, "tl"), Map: drawBool(t, "tm"), Nested: oneIn(t, 3, "tn")}
+		small := TreeCfg{MaxDepth: 2, MaxWidth: 3, MaxStr: 4, KeyGen: cfg.KeyGen}
+		for i, n := 0, drawInt(t, 1, 5, "tcount"); i < n; i++ {
+			k := fmt.Sprintf("k%d", i)
+			switch {
+			case oneIn(t, 3, "tnil"):
+				ts.Entries = append(ts.Entries, VNil())
+			case ts.Lists:
+				ts.Entries = append(ts.Entries, GenListV(t, small, 1))
+			default:
+				ts.Entries = append(ts.Entries, GenObjectV(t, small, 1))
+			}
+			ts.Keys = append(ts.Keys, k)
+		}
+		c.Typed = ts
 	}
 	n := drawInt(t, 1, 6, "nmods")
 	for i := 0; i < n; i++ {
@@ -577,9 +605,176 @@ func checkSharedInstance(c *C13Case, st *Stats) error {
 	return nil
 }
 
+// checkTypedSource converts a []Object / []List / map[string]Object / map[string]List source whose
+// entries are containers or nil: every non-nil entry is stored by reference, every nil entry becomes a
+// nil element, exports are plain data equal to the content, and source and container do not share slots.
+func checkTypedSource(ts *TypedSrc, st *Stats) error {
+	n := len(ts.Entries)
+	if n == 0 {
+		return nil
+	}
+	built := make([]any, n)
+	nils := 0
+	for i, e := range ts.Entries {
+		if e.K != KNil {
+			built[i] = Build(e)
+		} else {
+			nils++
+		}
+	}
+	var src any
+	switch {
+	case !ts.Map && !ts.Lists:
+		s := make([]at.Object, n)
+		for i, b := range built {
+			if b != nil {
+				s[i] = b.(at.Object)
+			}
+		}
+		src = s
+	case !ts.Map && ts.Lists:
+		s := make([]at.List, n)
+		for i, b := range built {
+			if b != nil {
+				s[i] = b.(at.List)
+			}
+		}
+		src = s
+	case ts.Map && !ts.Lists:
+		m := map[string]at.Object{}
+		for i, b := range built {
+			if b != nil {
+				m[ts.Keys[i]] = b.(at.Object)
+			} else {
+				m[ts.Keys[i]] = nil
+			}
+		}
+		src = m
+	default:
+		m := map[string]at.List{}
+		for i, b := range built {
+			if b != nil {
+				m[ts.Keys[i]] = b.(at.List)
+			} else {
+				m[ts.Keys[i]] = nil
+			}
+		}
+		src = m
+	}
+	want := V{K: KList, L: ts.Entries}
+	if ts.Map {
+		want = V{K: KObject}
+		for i, e := range ts.Entries {
+			want.O = append(want.O, Pair{ts.Keys[i], e})
+		}
+	}
+	name := fmt.Sprintf("%T", src)
+	var cont any
+	p, panicked := catch(func() {
+		switch {
+		case ts.Nested && ts.Map:
+			cont = at.NewObjectFrom(map[string]any{"in": src}).Get("in")
+		case ts.Nested:
+			cont = at.NewListFrom([]any{src}).Get(0)
+		case ts.Map:
+			cont = at.NewObjectFrom(src)
+		default:
+			cont = at.NewListFrom(src)
+		}
+	})
+	if panicked {
+		return errf("conversion of a %s source with %d nil entries panicked: %v", name, nils, p)
+	}
+	var nat, shallow any
+	var got V
+	p, panicked = catch(func() {
+		var err error
+		if got, err = Snap(cont); err != nil {
+			panic(err)
+		}
+		for i, b := range built {
+			var e any
+			if ts.Map {
+				e = cont.(at.Object).Get(ts.Keys[i])
+			} else {
+				e = cont.(at.List).Get(i)
+			}
+			if b != nil && e != b {
+				panic(fmt.Sprintf("entry %d is not the identical container that the source holds", i))
+			}
+			if b == nil && e != nil {
+				panic(fmt.Sprintf("entry %d: a nil entry of the source reads back as %s", i, showAny(e)))
+			}
+		}
+		if ts.Map {
+			nat, shallow = cont.(at.Object).NativeDict(), cont.(at.Object).Dict()
+		} else {
+			nat, shallow = cont.(at.List).NativeSlice(), cont.(at.List).Slice()
+		}
+	})
+	if panicked {
+		return errf("container built from a %s source with %d nil entries: %v\n expected content %s", name, nils, p, want.Show())
+	}
+	if !EqVBits(got, want) {
+		return errf("container built from a %s source holds %s, expected %s", name, got.Show(), want.Show())
+	}
+	var foreign []string
+	natV := normNative(nat, &foreign, "$")
+	if len(foreign) > 0 || !EqVBits(natV, want) || nonCanonicalNative(nat, "$") != "" {
+		return errf("native export of a container built from a %s source: %s %v %s, expected plain data %s", name, natV.Show(), foreign, nonCanonicalNative(nat, "$"), want.Show())
+	}
+	if sl, ok := shallow.([]any); ok {
+		for i, e := range sl {
+			if !ifaceEq(e, built[i]) {
+				return errf("Slice()[%d] of a container built from a %s source is %s", i, name, showAny(e))
+			}
+		}
+		if len(sl) != n {
+			return errf("Slice() of a container built from a %s source has %d entries, expected %d", name, len(sl), n)
+		}
+	} else {
+		d := shallow.(map[string]any)
+		for i, k := range ts.Keys {
+			e, present := d[k]
+			if !present || !ifaceEq(e, built[i]) {
+				return errf("Dict()[%q] of a container built from a %s source is %s (present %v)", k, name, showAny(e), present)
+			}
+		}
+		if len(d) != n {
+			return errf("Dict() of a container built from a %s source has %d entries, expected %d", name, len(d), n)
+		}
+	}
+	// the source and the container do not share top-level slots
+	before, _ := TakeIdentSnap(cont)
+	rv := reflect.ValueOf(src)
+	if ts.Map {
+		rv.SetMapIndex(reflect.ValueOf(ts.Keys[0]), reflect.Value{})
+		rv.SetMapIndex(reflect.ValueOf("zz-new"), reflect.Zero(rv.Type().Elem()))
+	} else {
+		last := rv.Index(n - 1).Interface()
+		rv.Index(n - 1).Set(rv.Index(0))
+		rv.Index(0).Set(reflect.Zero(rv.Type().Elem()))
+		_ = last
+	}
+	after, _ := TakeIdentSnap(cont)
+	if !before.Same(after) {
+		return errf("modifying the %s source changed the container built from it: %s -> %s", name, before.Tree.Show(), after.Tree.Show())
+	}
+	st.Count("typed_container_source." + name)
+	if nils > 0 {
+		st.Count("typed_container_source.with_nil_entries")
+	}
+	return nil
+}
+
 func CheckC13(c *C13Case, st *Stats) error {
 	if c.Tree.K != KList && c.Tree.K != KObject {
 		return nil
+	}
+	if c.Typed != nil {
+		if err := checkTypedSource(c.Typed, st); err != nil {
+			return err
+		}
 	}
 	st.Count("root." + c.Tree.K.String())
 	if c.Flavour%3 == 0 {
@@ -635,6 +830,6 @@ func CheckC13(c *C13Case, st *Stats) error {
 
 func init() {
 	Register("C13",
-		"native trees of map[string]any / []any / scalars (depth <= 4, empties and nil maps/slices included) with typed flavours ([]string, []int, map[string]float64, ...) and sized numbers (int8, uint16, int32, int64, float32) where the content allows; the container is built with NewObjectFrom/NewListFrom. Oracle: container content == tree; NativeDict/NativeSlice hold only map[string]any, []any and canonical scalars (reflective walk) and equal the tree bit-exactly (also for a container built with Add/Set); Dict()/Slice() have exactly the keys/indices with entries == Get (identity for containers). Then 1-6 modifications of one of four parties (container at any nested node; native export at any nested map/slice; Dict/Slice export; the source map/slice at any nested level): after each, every OTHER party's snapshot is unchanged. After every modification fresh exports must describe the container as it is then. One case in six additionally stores one container instance at two positions, and wraps nested containers in user-defined derived types: the native export must still be plain data equal to the content. Non-trivial = tree depth >= 2 and at least one applied modification, or the shared-instance variant. Distinct = distinct FNV-64a hash of the case JSON.",
+		"native trees of map[string]any / []any / scalars (depth <= 4, empties and nil maps/slices included) with typed flavours ([]string, []int, map[string]float64, ...) and sized numbers (int8, uint16, int32, int64, float32) where the content allows; the container is built with NewObjectFrom/NewListFrom; one case in six additionally converts a []Object / []List / map[string]Object / map[string]List source (directly or nested in a []any / map[string]any) whose entries are containers or nil interface values (non-nil entries stored by reference, nil entries become nil elements, exports plain and equal, no shared slots). Oracle: container content == tree; NativeDict/NativeSlice hold only map[string]any, []any and canonical scalars (reflective walk) and equal the tree bit-exactly (also for a container built with Add/Set); Dict()/Slice() have exactly the keys/indices with entries == Get (identity for containers). Then 1-6 modifications of one of four parties (container at any nested node; native export at any nested map/slice; Dict/Slice export; the source map/slice at any nested level): after each, every OTHER party's snapshot is unchanged. After every modification fresh exports must describe the container as it is then. One case in six additionally stores one container instance at two positions, and wraps nested containers in user-defined derived types: the native export must still be plain data equal to the content. Non-trivial = tree depth >= 2 and at least one applied modification, or the shared-instance variant. Distinct = distinct FNV-64a hash of the case JSON.",
 		GenC13, CheckC13)
 }
